@@ -134,11 +134,14 @@ def main():
     stats = Stats()
     hists = mod.histories(rng, tier if not lean_broken else 'thorough')
     corpus = mod.corpus() if hasattr(mod, 'corpus') else []
+    # repaired defects stay in the corpus: their replays must agree with the model from now on
+    corpus = corpus + [k['replay'] for k in load_known(pid) if k.get('status') == 'fixed' and k.get('replay')]
     allh = corpus + hists
     diffs = []
+    core.PAIR_CHECK = getattr(mod, 'pair_check', None)
     CH = 200
     for i in range(0, len(allh), CH):
-        diffs += [(i + d.hist_index, d) for d in core.check_histories(allh[i:i + CH], stats)]
+        diffs += [(i + d.hist_index, d) for d in core.check_histories(allh[i:i + CH], stats, pair_check=core.PAIR_CHECK)]
     nontriv = set()
     for h in allh:
         if mod.nontrivial(h):
@@ -152,9 +155,21 @@ def main():
     for k in load_known(pid):
         if k.get('status') != 'known':
             continue
-        d = core.fails(k['replay'])
-        if d is not None:
-            known_lines.append("KNOWN-FINDING: property=%s %s" % (pid, k['what']))
+        if k.get('mode') == 'expect':
+            # the model mirrors the defective code; the property itself prescribes `property_says`
+            robs, _ = core.run_real(k['replay'])
+            if robs[k['step']] != k['property_says']:
+                known_lines.append("KNOWN-FINDING: property=%s %s" % (pid, k['what']))
+        elif k.get('mode') == 'steps_equal':
+            # the property equates two observations of the implementation itself
+            robs, _ = core.run_real(k['replay'])
+            i, j = k['steps']
+            if robs[i] != robs[j]:
+                known_lines.append("KNOWN-FINDING: property=%s %s" % (pid, k['what']))
+        else:
+            d = core.fails(k['replay'])
+            if d is not None:
+                known_lines.append("KNOWN-FINDING: property=%s %s" % (pid, k['what']))
 
     seen_reason = set()
     for hi, d in diffs:
